@@ -250,10 +250,11 @@ def check_histories(acc, zc, z, u, L, lo, hi):
     or the last day of a cache period, fresh cached zones are asked, for each aliased instant a in {T + 512, T + 1024, T-1ns - 512,
     T-1ns - 1024 periods} (same cache slot as T's period):
         a, then around T ascending (end of the previous day, 00:00 of T's day, T-1ns, T, T+1ns, end of T's day, 00:00 of the next day)
-        a, then around T descending
+        a, then around T descending (for the two nearest aliases)
     and once each: around T ascending / descending followed by all aliases.
     Every answer must be the interval the uncached zone gives for that instant."""
     zid = zc.zid
+    idx = zw.Index(L)
     span = CACHE_PERIOD_DAYS * CACHE_SLOTS * DAY_NS
     for k in range(1, len(L)):
         T = L[k][0]
@@ -269,7 +270,8 @@ def check_histories(acc, zc, z, u, L, lo, hi):
         want = {}
         try:
             for q in alias + local:
-                want[q] = zw.iv_tuple(u.get_zone_interval(zw.mk_instant(q)))
+                # inside the walked stretch the walked list (already shown equal to the uncached zone's) is the oracle
+                want[q] = L[idx.at(q)] if idx.covers(q, q) else zw.iv_tuple(u.get_zone_interval(zw.mk_instant(q)))
         except Exception as ex:  # noqa: BLE001
             acc.lib_exception("C04/history-raw/%s" % zid, ex, _case(zid, instant_ns=T))
             continue
@@ -279,7 +281,8 @@ def check_histories(acc, zc, z, u, L, lo, hi):
         histories = []
         for a_q in alias:
             histories.append(("alias %s then ascending" % zw.fmt_ns(a_q)[:10], [a_q] + local))
-            histories.append(("alias %s then descending" % zw.fmt_ns(a_q)[:10], [a_q] + local[::-1]))
+            if abs(a_q - T) <= span + 1:          # descending order only after the nearest aliases (+-512 periods)
+                histories.append(("alias %s then descending" % zw.fmt_ns(a_q)[:10], [a_q] + local[::-1]))
         histories.append(("ascending then all aliases", local + alias))
         histories.append(("descending then all aliases", local[::-1] + alias[::-1]))
         for name, seq in histories:
